@@ -65,26 +65,46 @@ impl Ledger {
 
 pub const NTASK: usize = 2;
 pub static mut L: [Ledger; NTASK] = [Ledger::NEW, Ledger::NEW];
-/// Value held by the (stubbed) `wasip3_task_set` cell.
-pub static mut CUR: *mut wasip3_task = ptr::null_mut();
-/// Whether `clone` returns a fresh pointer (true) or the same one (false).
-pub static mut CLONE_DISTINCT: bool = false;
-/// The waitable handle the operation under test is allowed to register
-/// (0 = not yet known / any).
-pub static mut EXPECT_WAITABLE: u32 = 0;
-/// Set by a harness while the memory of the operation under test is alive.
-/// Registration while the memory is gone would be a dangling registration.
-pub static mut OP_ALIVE: bool = true;
-/// The callback pointer of the first registration; the operation is pinned,
-/// so every later registration must hand over the same pointer.
-pub static mut EXPECT_PTR: *mut c_void = ptr::null_mut();
+/// Scalar state of the mock, in ONE struct with a magic first field.
+///
+/// Why not separate `static mut`s: Kani 0.68 resolves a *constant* whose bytes
+/// equal the initializer of some `static mut` to that very static (seen: the
+/// standard library's `ZERO_CAP` (8 zero bytes) was compiled as a read of
+/// `static mut G.cur: *mut wasip3_task = null_mut()`, so every `Vec::new()` got
+/// the current task pointer as its capacity once the harness had installed a
+/// task).  Every mutable static of this crate therefore starts with a byte
+/// pattern that no constant of the code under test has.
+pub struct Globals {
+    pub magic: u64,
+    /// Value held by the (stubbed) `wasip3_task_set` cell.
+    pub cur: *mut wasip3_task,
+    /// Whether `clone` returns a fresh pointer (true) or the same one (false).
+    pub clone_distinct: bool,
+    /// The waitable handle the operation under test is allowed to register
+    /// (0 = not yet known / any).
+    pub expect_waitable: u32,
+    /// Set by a harness while the memory of the operation under test is alive.
+    /// Registration while the memory is gone would be a dangling registration.
+    pub op_alive: bool,
+    /// The callback pointer of the first registration; the operation is pinned,
+    /// so every later registration must hand over the same pointer.
+    pub expect_ptr: *mut c_void,
+}
+pub static mut G: Globals = Globals {
+    magic: 0x6d6f_636b_5f74_6b01,
+    cur: ptr::null_mut(),
+    clone_distinct: false,
+    expect_waitable: 0,
+    op_alive: true,
+    expect_ptr: ptr::null_mut(),
+};
 
 /// Task pointers are addresses of bytes of this array (never dereferenced by
 /// the runtime): `TOK[t][0]` is `wasip3_task::ptr` of task `t`, `TOK[t][k]`
 /// its k-th clone.  Real addresses rather than integers cast to pointers,
 /// because pointer/integer casts are very expensive for CBMC.
-pub const MAXCLONE: usize = 8;
-pub static mut TOK: [[u8; MAXCLONE]; NTASK] = [[0; MAXCLONE]; NTASK];
+pub const MAXCLONE: usize = 4;
+pub static mut TOK: [[u8; MAXCLONE]; NTASK] = [[0xa1, 0xa2, 0xa3, 0xa4], [0xb1, 0xb2, 0xb3, 0xb4]];
 
 pub fn task_ptr(t: usize) -> *mut c_void {
     unsafe { ptr::addr_of_mut!(TOK[t][0]) as *mut c_void }
@@ -92,22 +112,34 @@ pub fn task_ptr(t: usize) -> *mut c_void {
 
 /// Which clone of task `T` is `p` (0 = the task's own pointer)?  The task
 /// index is a const generic: every task has its own set of C ABI functions,
-/// so nothing about *which* task is symbolic.
+/// so nothing about *which* task is symbolic.  Pointer comparisons only (no
+/// `offset_from`: pointer arithmetic is expensive for CBMC).
 fn decode<const T: usize>(p: *mut c_void) -> u32 {
-    let base = unsafe { ptr::addr_of!(TOK[T]) as *const u8 };
-    // `offset_from` makes Kani check that `p` points into `TOK[T]` at all.
-    let off = unsafe { (p as *const u8).offset_from(base) };
-    assert!(
-        off >= 0 && (off as usize) < MAXCLONE,
-        "task callback invoked with a pointer that does not belong to this task"
-    );
-    off as u32
+    let p = p as *const u8;
+    unsafe {
+        if p == ptr::addr_of!(TOK[T][0]) {
+            return 0;
+        }
+        assert!(G.clone_distinct, "task callback invoked with a pointer that is not the task's");
+        // MAXCLONE == 4, unrolled by hand (no loop: harness unwind bounds stay about the code under test)
+        if p == ptr::addr_of!(TOK[T][1]) {
+            return 1;
+        }
+        if p == ptr::addr_of!(TOK[T][2]) {
+            return 2;
+        }
+        if p == ptr::addr_of!(TOK[T][3]) {
+            return 3;
+        }
+    }
+    assert!(false, "task callback invoked with a pointer that does not belong to this task");
+    0
 }
 
 unsafe fn check_ptr_live<const T: usize>(p: *mut c_void) {
     let k = decode::<T>(p);
     if k != 0 {
-        assert!(CLONE_DISTINCT);
+        assert!(G.clone_distinct);
         assert!(
             L[T].clone_mask & (1 << k) != 0,
             "task vtable called through a clone that was already dropped"
@@ -130,15 +162,15 @@ pub unsafe extern "C" fn t_register<const T: usize>(
     cb_ptr: *mut c_void,
 ) -> *mut c_void {
     check_ptr_live::<T>(p);
-    assert!(OP_ALIVE, "registration made after the operation's memory was released");
+    assert!(G.op_alive, "registration made after the operation's memory was released");
     assert!(!cb_ptr.is_null());
-    if EXPECT_PTR.is_null() {
-        EXPECT_PTR = cb_ptr;
+    if G.expect_ptr.is_null() {
+        G.expect_ptr = cb_ptr;
     } else {
-        assert!(cb_ptr == EXPECT_PTR, "registered a different callback pointer for the same (pinned) operation");
+        assert!(cb_ptr == G.expect_ptr, "registered a different callback pointer for the same (pinned) operation");
     }
-    if EXPECT_WAITABLE != 0 {
-        assert!(waitable == EXPECT_WAITABLE, "registered a waitable the operation does not own");
+    if G.expect_waitable != 0 {
+        assert!(waitable == G.expect_waitable, "registered a waitable the operation does not own");
     }
     // A waitable lives in at most one waitable-set; joining the set of task
     // `T` while the other task still holds a callback pointer for it would
@@ -177,9 +209,9 @@ pub unsafe extern "C" fn t_clone<const T: usize>(p: *mut c_void) -> *mut c_void 
     assert!(k == 0 || L[T].clone_mask & (1 << k) != 0);
     L[T].clones_live += 1;
     L[T].clones_made += 1;
-    if CLONE_DISTINCT {
+    if G.clone_distinct {
         let k = L[T].clones_made;
-        assert!((k as usize) < MAXCLONE, "harness bound: at most 7 clones per task");
+        assert!((k as usize) < MAXCLONE, "harness bound: at most 3 clones per task");
         L[T].clone_mask |= 1 << k;
         ptr::addr_of_mut!(TOK[T][k as usize]) as *mut c_void
     } else {
@@ -191,7 +223,7 @@ pub unsafe extern "C" fn t_drop<const T: usize>(p: *mut c_void) {
     let k = decode::<T>(p);
     assert!(L[T].clones_live > 0, "task `drop` without a matching `clone`");
     L[T].clones_live -= 1;
-    if CLONE_DISTINCT {
+    if G.clone_distinct {
         assert!(k != 0, "`drop` called on `wasip3_task::ptr` itself");
         assert!(L[T].clone_mask & (1 << k) != 0, "clone dropped twice");
         L[T].clone_mask &= !(1 << k);
@@ -251,8 +283,8 @@ pub fn new_v2_b() -> wasip3_task_v2 {
 /// Replacement for `cabi::wasip3_task_set` (a weak C symbol on wasm, an
 /// `unreachable!()` shim natively): a single global cell.
 pub unsafe fn stub_task_set(p: *mut wasip3_task) -> *mut wasip3_task {
-    let prev = CUR;
-    CUR = p;
+    let prev = G.cur;
+    G.cur = p;
     prev
 }
 
@@ -261,7 +293,7 @@ pub unsafe fn stub_task_set(p: *mut wasip3_task) -> *mut wasip3_task {
 /// invoke the callback.
 pub unsafe fn deliver(t: usize, code: u32) {
     assert!(L[t].reg_set, "harness error: deliver without registration");
-    assert!(OP_ALIVE, "event delivered to an operation whose memory is gone");
+    assert!(G.op_alive, "event delivered to an operation whose memory is gone");
     L[t].reg_set = false;
     L[t].n_delivered += 1;
     (L[t].reg_cb)(L[t].reg_ptr, code);
